@@ -363,6 +363,12 @@ def read_cycles(h):
 
 def replay_read_cycles(model, params, role):
     ch = dict(map(tuple, model.get("_choices", [])))
+    if ch.get("maxmsgsize_set", 0) == 1:
+        # a legal frame of 28 payload bytes with MAXMSGSIZE = the model's limit, written in two TCP writes: everything
+        # but the last byte, then (200 ms later) the last byte - the cut that leaves the longest residue
+        lim = int(model.get("maxmsgsize", 28))
+        return f"split_frame_maxmsg {lim} 28 29\n", (lambda out: "NOT delivered" in out), \
+            f"PULL listener with MAXMSGSIZE={lim}; raw PUSH peer writes a 28-byte frame in two TCP writes cut one byte before its end; expecting it not to be delivered"
     n = 1 + ch.get("messages", 0)
     return f"last_message_then_close {n}\n", (lambda out: "LOST" in out), \
         f"raw PUSH peer writes {n} message(s) and closes at once (data and FIN reach the reader together); expecting the PULL socket not to deliver them"
